@@ -37,8 +37,8 @@ var lcNames = []string{"in.Open", "out.Open", "Send(note)", "in.Listen", "midi.L
 
 type lcModel struct {
 	inOpen, outOpen bool
-	listener        int // 0 none, 1 active, 2 stopped
-	gen             int // id of the current listener
+	listener        int  // 0 none, 1 active, 2 stopped
+	gen             int  // id of the current listener
 	sysex           bool // the current listener asked for sysex
 }
 
